@@ -87,21 +87,29 @@ where
         &mut self,
         msg: MultiSet<S>,
     ) -> Result<(), BulkMutationError<S::Error>> {
-        let mut valid_entries = Vec::with_capacity(msg.docs.len());
-
         // Only select docs to be inserted if they're able to be applied.
-        let docs = msg
+        let mut docs = msg
             .docs
             .into_iter()
             .filter(|doc| self.state.will_apply(doc.id(), doc.last_updated()))
-            .map(|doc| {
-                valid_entries.push((doc.id(), doc.last_updated()));
-                doc
-            });
+            .collect::<Vec<_>>();
+
+        // A batch can name the same document more than once (two writes of one key
+        // which were batched together, not necessarily in timestamp order.) Only the
+        // newest one may reach the store, otherwise the store keeps whichever was
+        // written last while the set keeps the newest.
+        docs.sort_by_key(|doc| std::cmp::Reverse(doc.last_updated()));
+        let mut seen = HashSet::with_capacity(docs.len());
+        docs.retain(|doc| seen.insert(doc.id()));
+
+        let mut valid_entries = docs
+            .iter()
+            .map(|doc| (doc.id(), doc.last_updated()))
+            .collect::<Vec<_>>();
 
         let res = self
             .storage
-            .multi_put_with_ctx(&self.name, docs, msg.ctx.as_ref())
+            .multi_put_with_ctx(&self.name, docs.into_iter(), msg.ctx.as_ref())
             .await;
 
         // Ensure the insertion order into the set is correct.
@@ -155,19 +163,28 @@ where
         &mut self,
         msg: MultiDel<S>,
     ) -> Result<(), BulkMutationError<S::Error>> {
-        let mut valid_entries = Vec::with_capacity(msg.docs.len());
-
         // Only select docs to be inserted if they're able to be applied.
-        let docs = msg
+        let mut docs = msg
             .docs
             .into_iter()
             .filter(|doc| self.state.will_apply(doc.id, doc.last_updated))
-            .map(|doc| {
-                valid_entries.push((doc.id, doc.last_updated));
-                doc
-            });
+            .collect::<Vec<_>>();
 
-        let res = self.storage.mark_many_as_tombstone(&self.name, docs).await;
+        // See `on_multi_set`: only the newest entry of a document named more
+        // than once may reach the store.
+        docs.sort_by_key(|doc| std::cmp::Reverse(doc.last_updated));
+        let mut seen = HashSet::with_capacity(docs.len());
+        docs.retain(|doc| seen.insert(doc.id));
+
+        let mut valid_entries = docs
+            .iter()
+            .map(|doc| (doc.id, doc.last_updated))
+            .collect::<Vec<_>>();
+
+        let res = self
+            .storage
+            .mark_many_as_tombstone(&self.name, docs.into_iter())
+            .await;
 
         // Ensure the insertion order into the set is correct.
         valid_entries.sort_by_key(|entry| entry.1);
